@@ -122,6 +122,11 @@ func (amp *AlignedAllocator) AppendString(pbuf *[]byte, s string) *[]byte {
 //go:norace
 func (amp *AlignedAllocator) Free(pbuf *[]byte) {
 	size := cap(*pbuf)
+	if size == 0 {
+		// nothing to pool (MemPool.Free ignores it as well); filed in
+		// the smallest bucket it would make the next Malloc fail.
+		return
+	}
 	if (size&minAlignedBufferSizeMask) != 0 || size > maxAlignedBufferSize {
 		return
 	}
